@@ -194,6 +194,38 @@ pub fn run() -> i32 {
     r.boxes.push(json!({"box": "alpha bound at one position, used plain / inverted at a later one (context-context, input-context, exception, context-then-exception, input-then-exception)", "rules": forms.len(), "outer_segments": pick.len(), "cases": t3.evals, "model_predicts_firing": t3.nontrivial}));
     r.guard(t3.nontrivial > 10_000, "box 3: more than 10k cases fire");
     tot.evals += t3.evals; tot.nontrivial += t3.nontrivial; tot.viols.extend(t3.viols); tot.states.extend(t3.states);
+    // ---- box 3b: the same with NODE alphas (`[αlabial]` .. `[αpharyngeal]`, `[αPLACE]`): a node alpha carries the whole node - present or
+    // absent, and every feature bit of it - so a later `[αN]` matches exactly the segments whose node N is identical and `[-αN]` exactly the others
+    {
+        let nodes: [(&str, usize); 5] = [("labial", 0), ("coronal", 1), ("dorsal", 2), ("pharyngeal", 3), ("PLACE", 9)];
+        let mut nforms: Vec<(usize, bool, u8)> = vec![];
+        for n in 0..nodes.len() { for inv in [false, true] { for form in 0..3u8 { nforms.push((n, inv, form)); } } }
+        let mut t3b = Acc { evals: 0, nontrivial: 0, viols: vec![], states: Default::default(), fired: 0 };
+        par_fold(nforms.len(), 1, || Acc { evals: 0, nontrivial: 0, viols: vec![], states: Default::default(), fired: 0 }, |i, a| {
+            let (n, inv, form) = nforms[i];
+            let (m1, m2) = (format!("[α{}]", nodes[n].0), format!("[{}α{}]", if inv { "-" } else { "" }, nodes[n].0));
+            let text = match form { 0 => format!("t > [tone:7] / {} _ {}", m1, m2), 1 => format!("{} > [tone:7] / _ t {}", m1, m2), _ => format!("t > [tone:7] | {} _ {}", m1, m2) };
+            let Out::Ok(Ok(compiled)) = guarded(5_000_000, || av::compile(&[group(&[&text])])) else { a.viols.push(Viol { key: format!("compile|{}", text), desc: format!("`{}` does not compile", text), case: json!({"rule": text}) }); return; };
+            for x in &pick { for y in &pick {
+                if *x == tt || *y == tt { continue; }
+                let w: CW = vec![CSyl { segs: vec![*x, tt, *y], stress: 0, tone: 0 }];
+                let same = if nodes[n].1 == 9 { x.3 == y.3 } else { model::sub(x.3, nodes[n].1) == model::sub(y.3, nodes[n].1) };
+                let agree = same != inv;
+                let fires = if form == 2 { !agree } else { agree };
+                let mut e = w.clone(); if fires { e[0].tone = 7; }
+                a.evals += 1;
+                match guarded(200_000, || av::apply_group(&compiled, 0, word_of(&w)).map(|x| cw_of(&x))) {
+                    Out::Ok(Ok(got)) if got == e => { if fires { a.nontrivial += 1; } a.states.insert(hash64(&(n, inv, form, fires, 77u8))); }
+                    Out::Ok(Ok(got)) => a.viols.push(Viol { key: format!("{}|{}", text, show_cw(&w)), desc: format!("`{}` on /{}/: model /{}/ (node {} is {} on the outer segments), implementation /{}/", text, show_cw(&w), show_cw(&e), nodes[n].0, if same { "identical" } else { "different" }, show_cw(&got)), case: json!({"rule2": text, "word": cw_json(&w), "expected": cw_json(&e)}) }),
+                    Out::Ok(Err(er)) => a.viols.push(Viol { key: format!("{}|{}", text, show_cw(&w)), desc: format!("`{}` on /{}/: error {:?}", text, show_cw(&w), er), case: json!({"rule2": text, "word": cw_json(&w), "expected": cw_json(&e)}) }),
+                    o => a.viols.push(Viol { key: format!("crash|{}", text), desc: o.crash_desc().unwrap(), case: json!({"rule2": text, "word": cw_json(&w), "expected": cw_json(&e)}) }),
+                }
+            } }
+        }, |a| { t3b.evals += a.evals; t3b.nontrivial += a.nontrivial; t3b.viols.extend(a.viols); t3b.states.extend(a.states); });
+        r.boxes.push(json!({"box": "node alphas bound at one position, used plain / inverted at a later one (5 nodes x 3 forms)", "rules": nforms.len(), "outer_segments": pick.len(), "cases": t3b.evals, "model_predicts_firing": t3b.nontrivial}));
+        r.guard(t3b.nontrivial > 2_000, "box 3b: more than 2k cases fire");
+        tot.evals += t3b.evals; tot.nontrivial += t3b.nontrivial; tot.viols.extend(t3b.viols); tot.states.extend(t3b.states);
+    }
     // ---- box 4: an alpha inside an alternative of a set. The alternatives are disjoint (`[αF, vG]` and `[-vG]`), so which one is taken
     // does not depend on the order of trial or on backtracking; a binding made by an alternative that was then rejected (F is tested
     // before G or after it, depending on the feature order) must not reach the later `[αF]`
